@@ -29,6 +29,10 @@ NonSub(g) == IF g = 1 THEN N1 ELSE N2
 NoY(g) == IF g = 1 THEN FromNat(CHOOSE v \in 1..40 : ~QIsSquare(E1!Rhs(FromNat(v))))
           ELSE <<FromNat(CHOOSE v \in 1..40 : F2Legendre(E2!Rhs(<<FromNat(v), One>>)) = 0 - 1), One>>
 
+IsoU(g) == IF g = 1 THEN Two ELSE <<Two, One>>
+FMulG(g, a, b) == IF g = 1 THEN QMul(a, b) ELSE F2Mul(a, b)
+IsoX(g, P) == FMulG(g, FMulG(g, IsoU(g), IsoU(g)), P[1])
+IsoY(g, P) == FMulG(g, FMulG(g, FMulG(g, IsoU(g), IsoU(g)), IsoU(g)), P[2])
 SetByte(b, i, v) == [b EXCEPT ![i] = v]
 OrByte(b, i, m) == [b EXCEPT ![i] = (b[i] - (b[i] % (2 * m)) + (IF (b[i] \div m) % 2 = 1 THEN b[i] % (2 * m) ELSE (b[i] % (2 * m)) + m))]
 ToSeq(f) == [i \in 1..Len(f) |-> f[i]]
@@ -53,6 +57,9 @@ Mutants(g, P, comp) ==
      \cup { [cls |-> "coord-plus-q-field" \o ToString(k), bytes |-> PutField(e, k, Add(FieldVal(e, k), QMod))] :
             k \in { kk \in 0..(nf - 1) : Lt(Add(FieldVal(e, kk), QMod), Pow2(381)) } }
      \cup (IF comp THEN {} ELSE { [cls |-> "y-plus-one", bytes |-> PutField(e, nf - 1, ModN(Add(FieldVal(e, nf - 1), One), QMod))] })
+     \* (u^2 x, u^3 y) lies on the isomorphic curve y^2 = x^3 + b u^6: off the curve, yet of order r under the (b-independent) group
+     \* formulas, so only an explicit curve-equation test rejects it
+     \cup (IF comp THEN {} ELSE { [cls |-> "off-curve-isomorphic", bytes |-> ToSeq(Wire(g, IsoX(g, P)) \o Wire(g, IsoY(g, P)))] })
 
 EncCases(g) ==
   SetToSeq({ [op |-> "enc.encode", g |-> g, compressed |-> c, a |-> AffRaw(g, P), src |-> "gen"] : P \in Pts(g), c \in {0, 1} })
